@@ -3364,7 +3364,26 @@ def nan_reject(r: R, chk, qual: str, rule="NAN-REJECT"):
     fi = ctx.fi
     node = next((p for p in fi.params if p not in ("self", "cls")), None)
     n = 0
+
+    def nan_rejecting(e) -> bool:
+        """an expression that is False for a NaN node: an order / equality comparison involving the node, a conjunction with one"""
+        while isinstance(e, ast.Call) and seg(e.func) == "bool" and len(e.args) == 1:
+            e = e.args[0]
+        if isinstance(e, ast.Compare) and all(isinstance(o, (ast.Lt, ast.LtE, ast.Gt, ast.GtE, ast.Eq)) for o in e.ops):
+            return any(isinstance(y, ast.Name) and y.id == node for y in ast.walk(e))
+        if isinstance(e, ast.BoolOp) and isinstance(e.op, ast.And):
+            return any(nan_rejecting(v_) for v_ in e.values)
+        return False
+
     for nd in r.stmt_nodes(ctx):
+        if isinstance(nd.ast, ast.Return) and nd.ast.value is not None and not isinstance(nd.ast.value, ast.Constant):
+            # `return umin <= node <= umax` (possibly inside bool()): true only for an ordered node
+            n += 1
+            okv = nan_rejecting(nd.ast.value) or any(pol and nan_rejecting(ast.parse(txt, mode="eval").body) for txt, pol in path_facts(ctx, nd.id))
+            chk.ob(rule, f"{qual}: `{seg(nd.ast, 40)}` is true only for a node that is ordered with the knots", okv, loc=r.loc(ctx, nd.ast),
+                   detail="" if okv else f"{qual}: `{seg(nd.ast, 50)}` can be true for a NaN: the node counts as valid and the binary search of span() never ends",
+                   func=qual, construct="NaN passes the validity test")
+            continue
         if not (isinstance(nd.ast, ast.Return) and isinstance(nd.ast.value, ast.Constant) and nd.ast.value.value is True):
             continue
         n += 1
